@@ -1083,3 +1083,248 @@ Proof.
   - destruct O as [[[[mol1 named1] shn1] fgs1] [E R]]. rewrite E. cbn [bind]. subst r'. reflexivity.
   - rewrite O. reflexivity.
 Qed.
+
+(** ================================================================== set_atom_names_atomistic(molecule) without a coarse graph *)
+(** the 'fragid' values on which model and source agree: a one-element list/tuple holds an int (or something
+    unhashable: TypeError in both); a str or dict has a len() in Python (the model answers TypeError) *)
+Definition nometa_fragid_ok (v : pyval) : Prop :=
+  match v with
+  | VList [x] | VTup [x] => (exists k, x = VInt k) \/ py_hashable x = false
+  | VStr _ | VDict _ => False
+  | _ => True
+  end.
+Definition nometa_modelled (mol : graph) : Prop :=
+  all_na (fun d => match aget (S "fragid") d with Some v => nometa_fragid_ok v | None => True end) mol.
+
+(** ---- grouping *)
+Definition nm_collect :=
+  (fun (st_ : ddl Z) (it_ : Z * pyval) => let x2 := st_ in let '(x4, x5) := it_ in
+  t3_ <- py_len_pv x5 ;; _ <- py_assert (Z.eqb t3_ (1)) ;;
+  t4_ <- py_getitem_pv x5 0 ;; x2 <- ddl_append x2 t4_ x4 ;;
+  Ok (x2)).
+Definition nm_group_model :=
+  (fun (acc : list (Z * list Z)) (kv : Z * pyval) =>
+     l <- as_list (snd kv) ;;
+     match l with
+     | [VInt k] => Ok (group_add k (fst kv) acc)
+     | [_] => Err EType
+     | _ => Err EAssert
+     end).
+Lemma ddl_upd_group k n acc : ddl_upd (inj_groups acc) (VInt k) [n] = inj_groups (group_add k n acc).
+Proof.
+  unfold inj_groups. induction acc as [|[k' l] r IH]; cbn [map ddl_upd group_add fst snd]; [reflexivity|].
+  cbn [pyval_eqb]. destruct (Z.eqb k k'); cbn [map fst snd]; [reflexivity|]. now rewrite IH.
+Qed.
+Lemma nm_collect_step acc n v : nometa_fragid_ok v ->
+  nm_collect (inj_groups acc) (n, v) = match nm_group_model acc (n, v) with Ok acc' => Ok (inj_groups acc') | Err e => Err e end.
+Proof.
+  intros H. unfold nm_collect, nm_group_model. cbn [fst snd].
+  destruct v as [| | | |s|l|l|d]; cbn in H |- *; try reflexivity; try contradiction.
+  - destruct l as [|x [|y r]]; cbn; [reflexivity| |].
+    + destruct H as [[k ->]|H].
+      * cbn. now rewrite ddl_upd_group.
+      * unfold ddl_append. rewrite H. destruct x; try (cbn in H; discriminate H); reflexivity.
+    + destruct (Pos.of_succ_nat (length r)); cbn; now destruct x.
+  - destruct l as [|x [|y r]]; cbn; [reflexivity| |].
+    + destruct H as [[k ->]|H].
+      * cbn. now rewrite ddl_upd_group.
+      * unfold ddl_append. rewrite H. destruct x; try (cbn in H; discriminate H); reflexivity.
+    + destruct (Pos.of_succ_nat (length r)); cbn; now destruct x.
+Qed.
+Lemma nm_collect_loop items : Forall (fun kv : Z * pyval => nometa_fragid_ok (snd kv)) items -> forall acc,
+  fold_res nm_collect items (inj_groups acc)
+  = match fold_res nm_group_model items acc with Ok grp => Ok (inj_groups grp) | Err e => Err e end.
+Proof.
+  induction 1 as [|[n v] r Hv Hr IH]; intros acc; cbn [fold_res]; [reflexivity|].
+  rewrite (nm_collect_step acc n v Hv). destruct (nm_group_model acc (n, v)) as [acc'|e]; cbn [bind]; [apply IH|reflexivity].
+Qed.
+
+(** what the groups contain *)
+Lemma group_add_perm k n acc : Permutation (concat (map snd (group_add k n acc))) (n :: concat (map snd acc)).
+Proof.
+  induction acc as [|[k' l] r IH]; cbn [group_add map snd concat]; [now rewrite app_nil_r|].
+  destruct (Z.eqb k k'); cbn [map snd concat].
+  - rewrite <- app_assoc. cbn [app]. rewrite <- Permutation_middle. reflexivity.
+  - rewrite IH. rewrite Permutation_middle. reflexivity.
+Qed.
+Lemma nm_groups_facts items : forall acc grp, fold_res nm_group_model items acc = Ok grp ->
+  Permutation (concat (map snd grp)) (concat (map snd acc) ++ map fst items)
+  /\ Forall (fun kv : Z * pyval => py_len_pv (snd kv) = Ok 1) items.
+Proof.
+  induction items as [|[n v] r IH]; intros acc grp H; cbn [fold_res] in H.
+  - inversion H. subst. cbn. rewrite app_nil_r. split; [reflexivity|constructor].
+  - destruct (nm_group_model acc (n, v)) as [acc'|] eqn:E; cbn [bind] in H; [|discriminate].
+    destruct (IH _ _ H) as [P F]. unfold nm_group_model in E. cbn [fst snd] in E.
+    destruct (as_list v) as [l|] eqn:AL; cbn [bind] in E; [|discriminate].
+    destruct l as [|x [|y l']]; [discriminate| |destruct x; discriminate]. destruct x; try discriminate. inversion E. subst acc'. split.
+    + rewrite P. rewrite group_add_perm. cbn [map fst app]. rewrite <- Permutation_middle. reflexivity.
+    + constructor; [|exact F]. cbn [snd]. destruct v; try discriminate; cbn in AL; inversion AL; subst; reflexivity.
+Qed.
+
+(** ---- naming *)
+Definition nm_inner (x10 : list pyval) :=
+  (fun (st_ : Z * graph * list Z * list pystr) (it_ : Z) => let '(x11, x0, x6, x7) := st_ in let x4 := it_ in
+  '(x11, x0, x6, x7) <- (if (negb (zset_mem x4 x6)) then (t27_ <- nx_node_attrs x0 x4 ;; t28_ <- py_len_pv (attrs_get t27_ (S "fragid") (VList [])) ;; let x12 := (Z.ltb (1) t28_) in
+  t29_ <- nx_node_attrs x0 x4 ;; t30_ <- attrs_getitem t29_ (S "element") ;; t31_ <- py_add_pv_str t30_ (str_of_Z x11) ;; let x13 := t31_ in
+  '(x11, x13) <- py_while (Datatypes.S (length x10 + length x7)) (fun st_ => let '(x11, x13) := st_ in ((pvset_mem_str x13 x10) || (x12 && (sset_mem x13 x7)))) (fun st_ => let '(x11, x13) := st_ in
+  let x11 := (x11 + (1)) in
+  t32_ <- nx_node_attrs x0 x4 ;; t33_ <- attrs_getitem t32_ (S "element") ;; t34_ <- py_add_pv_str t33_ (str_of_Z x11) ;; let x13 := t34_ in
+  Ok (x11, x13)) (x11, x13) ;;
+  x0 <- nx_set_node_item x0 x4 (S "atomname") (VStr x13) ;;
+  let x6 := set_add_int x6 x4 in
+  x7 <- (if x12 then (let x7 := set_add_str x7 x13 in
+  Ok (x7)) else (Ok (x7))) ;;
+  Ok (x11, x0, x6, x7)) else (Ok (x11, x0, x6, x7))) ;;
+  let x11 := (x11 + (1)) in
+  Ok (x11, x0, x6, x7)).
+
+(** the atom carries a 'fragid' of length one *)
+Definition fid1 (g : graph) (n : Z) : Prop :=
+  exists a v, node_attrs g n = Ok a /\ aget (S "fragid") a = Some v /\ py_len_pv v = Ok 1.
+Lemma node_attrs_set g n' k x n :
+  node_attrs (set_node_attr g n' k x) n
+  = match node_attrs g n with Ok a => Ok (if Z.eqb n n' then aset k x a else a) | Err e => Err e end.
+Proof.
+  unfold node_attrs, set_node_attr. induction g as [|m r IH]; cbn [gupdate gfind]; [reflexivity|].
+  destruct (Z.eqb (nk m) n') eqn:E1; cbn [gfind nk na].
+  - destruct (Z.eqb (nk m) n) eqn:E2.
+    + apply Z.eqb_eq in E1, E2. assert (X : n = n') by congruence. rewrite <- X. rewrite Z.eqb_refl. reflexivity.
+    + destruct (gfind n r); [|reflexivity]. destruct (Z.eqb_spec n n') as [E3|_]; [|reflexivity]. subst n'. congruence.
+  - destruct (Z.eqb (nk m) n) eqn:E2.
+    + destruct (Z.eqb_spec n n') as [E3|_]; [|reflexivity]. subst n'. congruence.
+    + exact IH.
+Qed.
+Lemma fid1_set g n' x n : fid1 g n -> fid1 (set_node_attr g n' (S "atomname") x) n.
+Proof.
+  intros [a [v [NA [FG L]]]]. unfold fid1. rewrite node_attrs_set, NA.
+  destruct (Z.eqb n n').
+  - exists (aset (S "atomname") x a), v. split; [reflexivity|]. split; [|exact L].
+    rewrite aget_aset_other; [exact FG|]. intros X. apply (f_equal (@length _)) in X. cbn in X. discriminate.
+  - exists a, v. split; [reflexivity|]. split; [exact FG|exact L].
+Qed.
+Lemma zset_mem_false n l : ~ In n l -> zset_mem n l = false.
+Proof.
+  unfold zset_mem. intros H. destruct (existsb (Z.eqb n) l) eqn:E; [|reflexivity].
+  apply existsb_exists in E as [x [Hx E]]. apply Z.eqb_eq in E. subst. contradiction.
+Qed.
+
+Lemma nm_inner_step idx mol named shn n : fid1 mol n -> ~ In n named ->
+  match name_one (-1) (mol, []) (idx, n) with
+  | Ok (mol', fgs') => nm_inner [] (idx, mol, named, shn) n = Ok (idx + 1, mol', n :: named, shn) /\ fgs' = []
+                       /\ (forall k, fid1 mol k -> fid1 mol' k)
+  | Err e => nm_inner [] (idx, mol, named, shn) n = Err e
+  end.
+Proof.
+  intros [a [v [NA [FG L]]]] NI. unfold name_one, nm_inner, nx_node_attrs. rewrite (zset_mem_false n named NI). cbn [negb].
+  rewrite NA. cbn [bind]. unfold attrs_get. rewrite FG, L. cbn [bind]. change (Z.ltb 1 1) with false.
+  unfold attrs_getitem. destruct (aget (S "element") a) as [el|]; cbn [of_option bind]; [|reflexivity].
+  unfold py_add_pv_str. destruct (as_str el) as [e|x]; cbn [bind]; [|reflexivity].
+  cbn [py_while pvset_mem_str existsb orb andb bind fg_get].
+  unfold nx_set_node_item. rewrite (node_attrs_has _ _ _ NA). cbn [bind]. unfold set_add_int. rewrite (zset_mem_false n named NI).
+  repeat split. intros k Hk. now apply fid1_set.
+Qed.
+
+Lemma nm_inner_loop : forall ns idx mol named shn, (forall n, In n ns -> fid1 mol n) -> (forall n, In n ns -> ~ In n named) -> NoDup ns ->
+  match fold_res (name_one (-1)) (enumerate_from idx ns) (mol, []) with
+  | Ok (mol', fgs') => fold_res (nm_inner []) ns (idx, mol, named, shn) = Ok (idx + Z.of_nat (length ns), mol', rev ns ++ named, shn)
+                       /\ fgs' = [] /\ (forall k, fid1 mol k -> fid1 mol' k)
+  | Err e => fold_res (nm_inner []) ns (idx, mol, named, shn) = Err e
+  end.
+Proof.
+  induction ns as [|n r IH]; intros idx mol named shn F NI ND.
+  - cbn. repeat split; [now rewrite Z.add_0_r|auto].
+  - rewrite enumerate_from_cons. cbn [fold_res].
+    pose proof (nm_inner_step idx mol named shn n (F n (or_introl eq_refl)) (NI n (or_introl eq_refl))) as S1.
+    destruct (name_one (-1) (mol, []) (idx, n)) as [[mol1 fgs1]|e]; cbn [bind].
+    + destruct S1 as [E1 [-> K1]]. rewrite E1. cbn [bind]. inversion ND as [|? ? Hn Hr]; subst.
+      specialize (IH (idx + 1) mol1 (n :: named) shn (fun x Hx => K1 x (F x (or_intror Hx)))).
+      assert (NI' : forall x, In x r -> ~ In x (n :: named)).
+      { intros x Hx [<-|X]; [contradiction|]. exact (NI x (or_intror Hx) X). }
+      specialize (IH NI' Hr).
+      match type of IH with match ?F with _ => _ end => match goal with |- match ?G with _ => _ end => change G with F end end.
+      destruct (fold_res (name_one (-1)) (enumerate_from (idx + 1) r) (mol1, [])) as [[mol2 fgs2]|e].
+      * destruct IH as [E2 [-> K2]]. rewrite E2. repeat split.
+        -- replace (idx + Z.of_nat (length (n :: r))) with (idx + 1 + Z.of_nat (length r)) by (cbn [length]; lia).
+           cbn [rev]. rewrite <- app_assoc. reflexivity.
+        -- intros k Hk. apply K2, K1, Hk.
+      * exact IH.
+    + rewrite S1. reflexivity.
+Qed.
+
+Definition nm_group :=
+  (fun (st_ : graph * list Z * list pystr) (it_ : pyval * list Z) => let '(x0, x6, x7) := st_ in let '(x8, x9) := it_ in
+  t26_ <- map_res (fun it_ => let x4 := it_ in t24_ <- nx_node_attrs x0 x4 ;; t25_ <- attrs_getitem t24_ (S "atomname") ;; Ok t25_) (filter (fun it_ => let x4 := it_ in (zset_mem x4 x6)) x9) ;; let x10 := t26_ in
+  let x11 := (0) in
+  '(x11, x0, x6, x7) <- fold_res (nm_inner x10) x9 (x11, x0, x6, x7) ;;
+  Ok (x0, x6, x7)).
+Lemma filter_none {A} (f : A -> bool) l : (forall x, In x l -> f x = false) -> filter f l = [].
+Proof. induction l as [|x r IH]; cbn; intros H; [reflexivity|]. rewrite (H x (or_introl eq_refl)). apply IH. intros; apply H; now right. Qed.
+
+Lemma nodup_app_parts {A} (a b : list A) : NoDup (a ++ b) -> NoDup a /\ NoDup b /\ (forall x, In x a -> In x b -> False).
+Proof.
+  induction a as [|y r IH]; cbn; intros H; [repeat split; [constructor|exact H|intros x []]|].
+  inversion H as [|? ? Hy Hr]; subst. destruct (IH Hr) as [Ha [Hb D]]. repeat split.
+  - constructor; [|exact Ha]. intros X. apply Hy, in_or_app. now left.
+  - exact Hb.
+  - intros x [<-|Hx] Hb'; [apply Hy, in_or_app; now right|exact (D x Hx Hb')].
+Qed.
+Lemma nm_outer : forall grp mol named shn,
+  (forall n, In n (concat (map snd grp)) -> fid1 mol n /\ ~ In n named) -> NoDup (concat (map snd grp)) ->
+  match fold_res (fun st g => fold_res (name_one (-1)) (enumerate_from 0 (snd g)) st) grp (mol, []) with
+  | Ok (mol', fgs') => exists named' shn', fold_res nm_group (inj_groups grp) (mol, named, shn) = Ok (mol', named', shn') /\ fgs' = []
+  | Err e => fold_res nm_group (inj_groups grp) (mol, named, shn) = Err e
+  end.
+Proof.
+  induction grp as [|[k ns] r IH]; intros mol named shn F ND; cbn [fold_res inj_groups map fst snd].
+  - exists named, shn. split; reflexivity.
+  - cbn [map snd concat] in F, ND.
+    assert (Fn : forall n, In n ns -> fid1 mol n) by (intros n Hn; apply F, in_or_app; now left).
+    assert (Nn : forall n, In n ns -> ~ In n named) by (intros n Hn; apply F, in_or_app; now left).
+    assert (G : nm_group (mol, named, shn) (VInt k, ns)
+                = ('(x11, x0, x6, x7) <- fold_res (nm_inner []) ns (0, mol, named, shn) ;; Ok (x0, x6, x7))).
+    { unfold nm_group. rewrite filter_none by (intros x Hx; apply zset_mem_false, Nn, Hx). reflexivity. }
+    rewrite G. clear G.
+    destruct (nodup_app_parts _ _ ND) as [NDa [NDb DJ]].
+    pose proof (nm_inner_loop ns 0 mol named shn Fn Nn NDa) as L.
+    destruct (fold_res (name_one (-1)) (enumerate_from 0 ns) (mol, [])) as [[mol1 fgs1]|e]; cbn [bind].
+    + destruct L as [E1 [-> K1]]. rewrite E1. cbn [bind]. fold (inj_groups r). apply IH.
+      * intros n Hn. split; [apply K1, F, in_or_app; now right|].
+        intros X. apply in_app_or in X as [X|X].
+        -- apply in_rev in X. exact (DJ n X Hn).
+        -- exact (proj2 (F n (in_or_app _ _ _ (or_intror Hn))) X).
+      * exact NDb.
+    + rewrite L. reflexivity.
+Qed.
+
+Lemma attr_lookup g a n v : NoDup (node_keys g) -> In (n, v) (get_node_attributes g a) ->
+  exists d, node_attrs g n = Ok d /\ aget a d = Some v.
+Proof.
+  intros ND H. unfold get_node_attributes in H. apply in_flat_map in H as [m [Hm H]].
+  destruct (aget a (na m)) as [w|] eqn:E; [|contradiction]. destruct H as [H|[]]. inversion H. subst n w.
+  exists (na m). unfold node_attrs. now rewrite (st_gfind_nodup g m ND Hm).
+Qed.
+
+Theorem names_nometa_is_source : forall mol, NoDup (node_keys mol) -> nometa_modelled mol ->
+  gen_set_atom_names_atomistic_nometa mol = GraphOps.set_atom_names_nometa mol.
+Proof.
+  intros mol ND NM. unfold gen_set_atom_names_atomistic_nometa, GraphOps.set_atom_names_nometa, nx_get_node_attributes, dict_items.
+  cbv zeta.
+  match goal with |- bind (fold_res ?f _ _) _ = _ => change f with nm_collect end.
+  match goal with |- _ = bind (fold_res ?f _ _) _ => change f with nm_group_model end.
+  pose proof (nm_collect_loop (get_node_attributes mol (S "fragid")) (all_na_attr nometa_fragid_ok _ mol NM) []) as C.
+  cbn [inj_groups map] in C. rewrite C. clear C.
+  destruct (fold_res nm_group_model (get_node_attributes mol (S "fragid")) []) as [grp|e] eqn:EG; cbn [bind]; [|reflexivity].
+  destruct (nm_groups_facts _ _ _ EG) as [P L1]. cbn [map concat app] in P.
+  match goal with |- bind (fold_res ?f _ _) _ = _ => change f with nm_group end.
+  assert (NDg : NoDup (concat (map snd grp))).
+  { apply (Permutation_NoDup (Permutation_sym P)). now apply attr_keys_nodup. }
+  assert (Fg : forall n, In n (concat (map snd grp)) -> fid1 mol n /\ ~ In n []).
+  { intros n Hn. split; [|intros []]. apply (Permutation_in _ P) in Hn. apply in_map_iff in Hn as [[n' v] [<- Hv]].
+    destruct (attr_lookup mol _ n' v ND Hv) as [d [NA FG]]. exists d, v. repeat split; try assumption.
+    rewrite Forall_forall in L1. exact (L1 _ Hv). }
+  pose proof (nm_outer grp mol [] [] Fg NDg) as O.
+  match type of O with match ?F with _ => _ end => match goal with |- _ = bind ?G _ => change G with F end end.
+  match type of O with match ?F with _ => _ end => destruct F as [[mol' fgs']|e] end; cbn [bind].
+  - destruct O as [named' [shn' [E _]]]. rewrite E. reflexivity.
+  - rewrite O. reflexivity.
+Qed.
